@@ -574,6 +574,14 @@ def r16_14(run, model):
             continue
         t = S.norm_ws(run.facts.text(SEP, g.body["sp"]))
         if re.search(r"\.deps\.(contains_key|get)\(", t) and "Err(" in t and re.search(r"cycle", t):
+            # the refusal rests on that membership alone: one decision in the helper, and it is the test of `deps`
+            decisions = [x for x in S.walk(g.body) if x["k"] in ("If", "Match") or (x["k"] == "Local" and x.get("else") is not None)]
+            sole = len(decisions) == 1 and re.search(r"\.deps\.(contains_key|get)\(", S.norm_ws(run.facts.text(SEP, decisions[0]["sp"]))) is not None and \
+                not re.search(r"&&", S.norm_ws(run.facts.text(SEP, (decisions[0].get("cond") or decisions[0])["sp"]))[:200])
+            run.ob("R16.14", f"{g.name}|the refusal depends on the dependency naming this package and on nothing else", sole, site(SEP, g.node["sp"]),
+                   f"decisions in the helper: {len(decisions)}",
+                   witness="history A v1, B (imports A), A v2 rebuilt, A v3 (imports B): B's interface pins another build of A, is taken for `merely "
+                           "stale`, and check / build accept the package that closes A -> B -> A")
             helpers[g.name] = g
     for name in ("check_package", "build_package"):
         f = model.fn(name, SEP)
